@@ -172,7 +172,15 @@ fn go_literal_from_primitive(value: &Prim, ty: &tast::Ty) -> goast::Expr {
 fn compile_imm(goenv: &GlobalGoEnv, imm: &anf::ImmExpr) -> goast::Expr {
     match imm {
         anf::ImmExpr::ImmVar { name, ty: _ } => goast::Expr::Var {
-            name: go_ident(name),
+            // an extern function used as a value is the Go function it stands for, as in a call
+            name: match goenv.genv.value_env.extern_funcs.get(name) {
+                Some(extern_fn) => format!(
+                    "{}.{}",
+                    go_package_alias(&extern_fn.package_path),
+                    extern_fn.go_name
+                ),
+                None => go_ident(name),
+            },
             ty: tast_ty_to_go_type(&imm_ty(imm)),
         },
         anf::ImmExpr::ImmPrim { value, .. } => {
